@@ -900,6 +900,164 @@ theorem run_inv : ∀ (ops : List Op) (s : State), Inv s → Admissible s ops = 
     simp only [Admissible, Bool.and_eq_true, Bool.or_eq_true] at ha
     exact ih (step s op) (step_inv h ha.1) ha.2
 
+/-! ### the exclusion is exact -/
+
+theorem mem_leaked_open {s : State} {k : Key} (hc : s.closed = false) (hs : k ∈ s.store)
+    (h1 : k ∉ keysOf s.current) (h2 : k ∉ keysOf s.lastRetry) (h3 : k ∉ fkeys s.flagged) : k ∈ leaked s := by
+  have hnt : k ∉ tracked s := fun h => by
+    rcases mem_tracked.1 h with h | h | h
+    · exact h1 h
+    · exact h2 h
+    · exact h3 h
+  unfold leaked
+  rw [hc]
+  simp only [Bool.false_eq_true, if_false]
+  exact List.mem_filter.2 ⟨hs, by simp [hnt]⟩
+
+theorem recordKey_skip {i : LockIn} {s : State} {k : Key} (h : skipKey i k = true) : recordKey i s k = s := by
+  unfold recordKey; rw [if_pos h]
+
+/-- a request for the one key `k` that ends in one of the two bad ways leaves `k` exactly where it was: held by the store
+    if it was, and in none of the client's sets if it was in none -/
+theorem lockSend_excluded_leaks {s : State} {i : LockIn} {k : Key} {al : Bool} (hcl : s.closed = false)
+    (hwf : wfLock i = true)
+    (hbad : match i.err with
+      | none => skipKey i k = true
+      | some e => needRollback [k] e = false)
+    (hst : k ∈ s.store) (h1 : k ∉ keysOf s.current) (h2 : k ∉ keysOf s.lastRetry) (h3 : k ∉ fkeys s.flagged) :
+    k ∈ leaked (lockSend s i [k] al) := by
+  unfold lockSend
+  cases herr : i.err with
+  | none =>
+    rw [herr] at hbad
+    simp only []
+    have hok : ∀ s1 : State, lockOk s1 i [k] al =
+        { okStart s1 i al with lockedCnt := (okStart s1 i al).lockedCnt
+            + ((([k] : List Key).length : Int) - ((([k] : List Key).filter (skipKey i)).length : Int)) } := by
+      intro s1
+      unfold lockOk
+      simp only [lwcErr_false hwf, Bool.false_eq_true, if_false, List.foldl_cons, List.foldl_nil]
+      rw [recordKey_skip hbad]
+      rfl
+    rw [hok]
+    refine mem_leaked_open ?_ ?_ ?_ ?_ ?_
+    · show (okStart _ i al).closed = false
+      rw [okStart_closed]; exact hcl
+    · show k ∈ (okStart _ i al).store
+      rw [okStart_store]; exact List.mem_append_left _ hst
+    · show k ∉ keysOf (okStart _ i al).current
+      rw [okStart_current]; exact h1
+    · show k ∉ keysOf (okStart _ i al).lastRetry
+      rw [okStart_lastRetry]; exact h2
+    · show k ∉ fkeys (okStart _ i al).flagged
+      rw [okStart_flagged]; exact h3
+  | some e =>
+    rw [herr] at hbad
+    simp only []
+    have hnr : ¬ needRollback [k] e = true := by rw [hbad]; exact Bool.false_ne_true
+    refine mem_leaked_open ?_ ?_ ?_ ?_ ?_
+    · rw [lockFail_closed]; exact hcl
+    · rw [lockFail_store, if_neg hnr]; exact List.mem_append_left _ hst
+    · rw [lockFail_current, if_neg hnr]; exact h1
+    · rw [lockFail_lastRetry]; exact h2
+    · rw [lockFail_flagged]; exact h3
+
+theorem findE_none_of_not_mem {l : List Entry} {k : Key} (h : k ∉ keysOf l) : findE l k = none := by
+  unfold findE
+  refine List.find?_eq_none.2 ?_
+  intro e he hk
+  exact h (mem_keysOf.2 ⟨e, he, by simpa using hk⟩)
+
+/-- THE EXCLUSION IS EXACT: whenever a lock call is in the excluded situation, its request is really sent (`req ≠ []`)
+    and the store still holds the lock of the previous attempt on the key, the key is leaked right after the call — held
+    by the store, in none of the client's sets -/
+theorem excluded_lock_leaks {s : State} {i : LockIn} {k : Key} (hcl : s.closed = false) (hwf : wfLock i = true)
+    (hr : relock s i = some k) (hx : excludedLock s i = true) (hs0 : s.req = [])
+    (hreq : (lockStep s i).req ≠ [])
+    (hst : k ∈ s.store) (hc : k ∉ keysOf s.current) (hf : k ∉ fkeys s.flagged) :
+    k ∈ leaked (lockStep s i) := by
+  -- the bad way out
+  have hbad : match i.err with
+      | none => skipKey i k = true
+      | some e => needRollback [k] e = false := by
+    unfold excludedLock at hx
+    rw [hr] at hx
+    cases herr : i.err with
+    | none => rw [herr] at hx; exact hx
+    | some e =>
+      rw [herr] at hx
+      cases e <;> simp_all [needRollback]
+  -- unpack `relock`
+  unfold relock at hr
+  split at hr
+  · rename_i k' hk
+    split at hr
+    · rename_i hcond
+      injection hr with hr
+      subst hr
+      simp only [Bool.and_eq_true, Option.isSome_iff_exists] at hcond
+      obtain ⟨ha, e, he⟩ := hcond
+      have hpre : preLock s i = s := by simp [preLock, hk]
+      have hcur : findE s.current k' = none := findE_none_of_not_mem hc
+      have hlook : look s k' = ⟨true, e.exist, true⟩ := by
+        unfold look
+        simp only [ha, if_true, hcur, he]
+      have hneed : needLock s i.keys = [k'] := by simp [needLock, hk, hlook]
+      have hnorm : normKeys [k'] = [k'] := by simp [normKeys, insertKey]
+      have hk2 : k' ∉ keysOf (eraseE s.lastRetry k') := fun h => (mem_keysOf_eraseE.1 h).2 rfl
+      simp only [lockStep, hpre, hneed, hnorm] at hreq ⊢
+      split
+      · rename_i h1; rw [if_pos h1] at hreq; exact (hreq hs0).elim
+      · rename_i h1
+        rw [if_neg h1] at hreq
+        simp only [List.isEmpty_cons, Bool.false_eq_true, if_false] at hreq ⊢
+        split
+        · rename_i h2; rw [if_pos h2] at hreq; exact (hreq hs0).elim
+        · rename_i h2
+          rw [if_neg h2] at hreq
+          split
+          · rename_i h3; rw [if_pos h3] at hreq; exact (hreq hs0).elim
+          · rename_i h3
+            rw [if_neg h3] at hreq
+            -- lockGo on the state with the primary settled
+            have hsa : (selPrim s [k']).inAgg = true := by rw [selPrim_inAgg]; exact ha
+            have hsl : findE (selPrim s [k']).lastRetry k' = some e := by rw [selPrim_lastRetry]; exact he
+            have hsreq : (selPrim s [k']).req = [] := by
+              unfold selPrim selectPrimary; split <;> (try split) <;> exact hs0
+            have hleak : ∀ al, k' ∈ leaked (lockSend (takeOut (selPrim s [k']) k') i [k'] al) := by
+              intro al
+              refine lockSend_excluded_leaks ?_ hwf hbad ?_ ?_ ?_ ?_
+              · show (selPrim s [k']).closed = false
+                rw [selPrim_closed]; exact hcl
+              · show k' ∈ (selPrim s [k']).store
+                rw [selPrim_store]; exact hst
+              · show k' ∉ keysOf (selPrim s [k']).current
+                rw [selPrim_current]; exact hc
+              · show k' ∉ keysOf (eraseE (selPrim s [k']).lastRetry k')
+                rw [selPrim_lastRetry]; exact hk2
+              · show k' ∉ fkeys (selPrim s [k']).flagged
+                rw [selPrim_flagged]; exact hf
+            unfold lockGo at hreq ⊢
+            rw [if_pos hsa] at hreq ⊢
+            simp only [lockAgg, hsl] at hreq ⊢
+            unfold lockAggFound at hreq ⊢
+            split
+            · rename_i h4; rw [if_pos h4] at hreq; exact (hreq hsreq).elim
+            · rename_i h4
+              rw [if_neg h4] at hreq
+              cases hd : skipDecision (selPrim s [k']) e i with
+              | none => simp only [hd] at hreq ⊢; exact hleak _
+              | some e' =>
+                simp only [hd] at hreq ⊢
+                unfold aggSkip at hreq ⊢
+                split
+                · exact hleak _
+                · rename_i h5
+                  rw [if_neg h5] at hreq
+                  exact (hreq hsreq).elim
+    · cases hr
+  · cases hr
+
 theorem run_append (s : State) (a b : List Op) : run s (a ++ b) = run (run s a) b := by
   simp [run, List.foldl_append]
 
